@@ -15,24 +15,29 @@ from .common import LABELS, LP, MAB, Scenario, ask, gen_batch, make_np, outputs_
 KF_TREE = 'KF-C14-treebandit-binarizes-twice'
 
 
-def binarized_once(env, npol, N, partial=1, add_arm=False, d=1, A=2, m=1, twin=False, feed_after_add=True):
+def binarized_once(env, npol, N, partial=1, add_arm=False, d=1, A=2, m=1, twin=False, feed_after_add=True,
+                   initial_binarizer=True):
     arms = list(LABELS['int'][:A])
     ctxd = d if npol else 0
     BIN = env.ufunc('bin', 2)
     BIN2 = env.ufunc('bin2', 2)
     npo, _ = make_np(env, npol)
     seed = env.integer('seed', 0, 2 ** 31 - 1)
-    raw = MAB()(list(arms), LP().ThompsonSampling(BIN), npo, seed=seed)
+    if not initial_binarizer:
+        # the bandit starts without a binarizer (its first rewards are binary already); add_arm installs the first one
+        BIN = lambda a, r: r       # noqa: E731
+    raw = MAB()(list(arms), LP().ThompsonSampling(BIN if initial_binarizer else None), npo, seed=seed)
     pre = MAB()(list(arms), LP().ThompsonSampling(), npo, seed=seed)
     tree = bool(npol) and npol.startswith('tree')
     compat = MAB()(list(arms), LP().ThompsonSampling(), npo, seed=seed) if tree else None
-    cur_bin = BIN
+    cur_bin = [BIN]
 
     def feed(tag, n, first):
-        dec, rew, ctx = gen_batch(env, tag, arms, n, 'real', d=ctxd, fixed_n=n)
+        dec, rew, ctx = gen_batch(env, tag, arms, n, 'real' if (initial_binarizer or cur_bin[0] is BIN2) else 'binary', d=ctxd,
+                                  fixed_n=n)
         conv = np.empty(n, dtype=object if env.sym else float)
         for i in range(n):
-            conv[i] = cur_bin(dec[i], rew[i])
+            conv[i] = cur_bin[0](dec[i], rew[i])
         dec = np.asarray(dec)
         for b, r in ((raw, rew), (pre, conv)) + (((compat, conv),) if compat else ()):
             (b.fit if first else b.partial_fit)(*((dec, r) + ((ctx,) if ctxd else ())))
@@ -46,7 +51,7 @@ def binarized_once(env, npol, N, partial=1, add_arm=False, d=1, A=2, m=1, twin=F
         if compat:
             compat.add_arm(new)
         arms.append(new)
-        cur_bin = BIN2
+        cur_bin[0] = BIN2
         if feed_after_add:
             feed('q', 1, False)
     q = env.reals('query', (m, ctxd)) if ctxd else None
@@ -58,7 +63,7 @@ def binarized_once(env, npol, N, partial=1, add_arm=False, d=1, A=2, m=1, twin=F
             # bug-compatible reference for the listed finding: the leaf policies convert the stored (already converted)
             # rewards once more at prediction time
             c2 = copy.deepcopy(compat)
-            c2._imp.lp.binarizer = cur_bin
+            c2._imp.lp.binarizer = cur_bin[0]
             o_alt = ask(c2, what, q)
         outputs_equal(env, what[:4], o_raw, o_pre, KF_TREE if compat else None, o_alt)
     if twin:
@@ -94,5 +99,15 @@ def scenarios(tier):
         if not q and npol:
             out.append(Scenario('%s.m2' % npol, binarized_once, dict(npol=npol, N=2, partial=1, m=2), weight=600, shards=8,
                                 max_paths=200000))
+    # a bandit created without a binarizer whose first binarizer arrives with add_arm: the observations stored so far stay
+    for npol in ([None, 'radius:cityblock', 'lsh:1:1'] if q else [None, 'radius:cityblock', 'knearest:2:cityblock', 'lsh:1:1',
+                                                                   'clusters:2']):
+        for after in (False, True):
+            out.append(Scenario('%s.first_binarizer_by_add_arm%s' % (npol or 'none', '.then_batch' if after else ''),
+                                binarized_once, dict(npol=npol, N=2, partial=0, add_arm=True, feed_after_add=after,
+                                                     initial_binarizer=False), weight=150 if npol else 30,
+                                shards=4 if npol else 1, max_paths=100000,
+                                bounds=dict(np=npol, history='fit (binary rewards, no binarizer), add_arm(arm, binarizer)' +
+                                            (', partial_fit(1 row)' if after else '') + ', query')))
     out.append(Scenario('twin.radius', binarized_once, dict(npol='radius:cityblock', N=1, partial=1, twin=True), twin=True))
     return out
